@@ -113,6 +113,8 @@ def run_c07(ctx, tier=None, seed=None):
     only = r'^((b2|sc|un) [^ ]+ (%s) |sum |zero )' % forms
     std_pipe(ctx, 'hist-all-types', 'wide', 'hist', '', tier=tier, seed=seed, only=only)
     std_pipe(ctx, 'ops-same-base', 'fl', 'ops', 'same', tier=tier, seed=seed, only=r'^bin [^ ]+ (add|sub|rem|adda|suba|rema|mul|div|tt[^ ]*|ti[^ ]*) ')
+    # the operator impls have feature-gated twins: the same cases again without autoconvert
+    std_pipe(ctx, 'hist-all-types-noauto', 'wide-noauto', 'hist', '', tier=tier, seed=seed, only=only)
 
 
 spec('C07', run=run_c07, search=search_with(run_c07),
@@ -127,6 +129,9 @@ spec('C07', run=run_c07, search=search_with(run_c07),
 def run_c10(ctx, tier=None, seed=None):
     std_pipe(ctx, 'hist-cmp', 'wide', 'hist', '', tier=tier, seed=seed, only=r'^b2 [^ ]+ (%s) ' % CMP_FORMS)
     std_pipe(ctx, 'ops-cmp', 'wide', 'ops', 'all', tier=tier, seed=seed, only=r'^bin [^ ]+ (eq|ne|lt|le|gt|ge|pcmp) ')
+    # the comparison impls have feature-gated twins: the same-base cases again without autoconvert
+    std_pipe(ctx, 'hist-cmp-noauto', 'wide-noauto', 'hist', '', tier=tier, seed=seed, only=r'^b2 [^ ]+ (%s) ' % CMP_FORMS)
+    std_pipe(ctx, 'ops-cmp-noauto', 'fl-noauto', 'ops', 'same', tier=tier, seed=seed, only=r'^bin [^ ]+ (eq|ne|lt|le|gt|ge|pcmp) ')
 
 
 spec('C10', run=run_c10, search=search_with(run_c10),
